@@ -106,6 +106,12 @@ def required_worker(chunk, seed, tier):
             part.nontrivial(repr(info))
             if len(part.samples) < 1 and len(subset) == 2:
                 part.sample(info)
+            if kind == "many-later":
+                # the faulty object as the second frame after an intact one: the per-frame check must reject it as it does the first
+                good = default_obj(name, seed + 1)[1]
+                sig = f"{name}:dump_many:later-frame-required-None:{','.join(subset)}"
+                guarded(part, f"{name}.dump_many, second frame with {list(subset)}=None", info, lambda: call_dump("many", [good, obj], path, spec.fmt, allow, dkw), path, {"PrepareDumpError"}, sig, pre)
+                continue
             arg = obj if kind == "one" else [obj, obj]
             sig = f"{name}:dump_{kind}:required-None:{','.join(subset)}"
             preflight(part, f"{name}.dump_{kind} with {list(subset)}=None", info, lambda: call_dump(kind, arg, path, spec.fmt, allow, dkw), path, sig, pre)
@@ -118,6 +124,7 @@ REJECTIONS = {
     # reason -> (case overrides for wfn.build, targets, allow values for which PrepareDumpError is demanded)
     "generalized-contraction": (dict(contraction="gen-ss"), ("fchk", "molden", "molekel", "wfn", "wfx"), (False,)),
     "generalized-contraction-pd": (dict(contraction="gen-pd", shellset="+d-pure"), ("fchk", "molden", "molekel"), (False,)),
+    "generalized-contraction-ps": (dict(contraction="gen-ps"), ("fchk", "molden", "molekel", "wfn", "wfx"), (False,)),
     "occs_aminusb": (dict(mo="aminusb"), ("molden", "molekel", "wfn", "wfx"), (False,)),
     "occs_aminusb-neg": (dict(mo="aminusb-neg"), ("molden", "molekel", "wfn", "wfx"), (False,)),
     "occs_aminusb-balanced": (dict(mo="aminusb-balanced"), ("molden", "molekel", "wfn", "wfx"), (False,)),
@@ -252,8 +259,9 @@ def many_worker(chunk, seed, tier):
                     if n != 3:
                         part.violation("frames", f"{sig}:frame-count", info, f"{label}: wrote 3 frames, file holds {n}")
             else:
-                # a later faulty frame: the error must propagate (PrepareDumpError or DumpError), never be swallowed
-                exc, rec, op = guarded(part, label, info, fn, path, {"PrepareDumpError", "DumpError"}, sig, pre)
+                # a later faulty frame: the error must propagate, never be swallowed; the fault is a missing attribute that
+                # dump_many declares as required, which the error contract (statement, dump_many docstring) maps to PrepareDumpError
+                exc, rec, op = guarded(part, label, info, fn, path, {"PrepareDumpError"}, sig, pre)
                 if exc is None:
                     part.violation("swallowed", f"{sig}:error-swallowed", info, f"{label}: no exception although frame {bad_index} lacks {fault}")
     finally:
@@ -374,6 +382,8 @@ def run(ctx):
                     for allow in (False, True):
                         for pre in (False, True):
                             jobs.append((name, kind, subset, allow, pre))
+                            if kind == "many":
+                                jobs.append((name, "many-later", subset, allow, pre))
     pmap(ctx, required_worker, jobs, chunk=16)
     rej = []
     for reason, (_, targets, allows) in REJECTIONS.items():
@@ -393,7 +403,7 @@ def run(ctx):
     ctx.cov.update(required_subsets=nsub, rejection_cases=len(rej), dump_many_cases=len(many), write_fault_targets=len(wf))
     ctx.exhaustive = True
     ctx.rule = (
-        "full products: every non-empty subset of each format's required attributes set to None x allow_changes x target {absent, pre-existing with sentinel bytes} for all dump_one and dump_many formats; "
+        "full products: every non-empty subset of each format's required attributes set to None x allow_changes x target {absent, pre-existing with sentinel bytes} for all dump_one and dump_many formats (dump_many: as first frame, and as second frame after an intact one); "
         "every prepare_dump rejection reason x applicable targets; unknown/unsupported format selections; dump_many with the faulty frame at index 0/1/2, no fault, empty sequence x list/generator; "
         "an OSError injected at the k-th write call for every k of the fault-free run (cap 200; at the first, second and last write also an exception without arguments and a DumpError) for every format's dump_one, dump_many and both input writers; write_input failure reasons. "
         "Each execution is judged on exception type, bytes of the pre-existing target, audit-hook record of opens for writing, and closure of every file object opened by iodata.api."
